@@ -1088,7 +1088,18 @@ def run(ctx, big=False):
         'soak': {k: v for k, v in stats.items() if k.startswith('soak_')},
     })
     res.extra_private = {'trace_records': TRACE_RECORDS}
+    if not ctx.search_mode:
+        correspondence(ctx, res, TRACE_RECORDS)
     return res
+
+
+def correspondence(ctx, res, trace_records):
+    """HOOK for the model correspondence (integrator): run coq/model/Conc.v on every trace record -- same programs,
+    same executed schedule (record['schedule_used']) -- and compare (a) each call's event sequence
+    (record['calls'][client][i]['events']) with the model's micro-step sequence, (b) per-call results, (c) step for
+    step the merged log (record['log'] = [(client, 'sql:BEGIN' | 'file:write' | ..., canonical detail)]).
+    Report with res.traces_validated += 1 / res.disagreements.append(fw.Violation(sig, text, case, 'correspondence'))."""
+    return
 
 
 def search(ctx, broken):
